@@ -126,6 +126,7 @@ void h_reorder_checks(void)
   bs100k = 9;
   init();
   parsing_done = IN.parsing_done & 1;
+  ospec.fd = (IN.parsing_done & 2) ? -1 : 1;           /* -t (discard) or a real output: the block takes the same route */
   ob = xmalloc(sizeof(struct out_blk) + 8);
   ob->base.major = IN.ob_major; ob->base.minor = IN.ob_minor; ob->size = 8; ob->crc = IN.ob_crc; ob->blk_sz = IN.ob_blk_sz;
   ob->status = IN.ob_status; ob->end_offset = 1;
